@@ -290,3 +290,7 @@ func (w *World) Key() string {
 	}
 	return sb.String()
 }
+
+func modelEntry(k, v []byte, w uint64) model.WEntry {
+	return model.WEntry{Key: append([]byte(nil), k...), Value: append([]byte(nil), v...), Weight: w}
+}
